@@ -57,6 +57,19 @@ Theorem C08_http_once_in_order_partial : forall cfg p sc,
   exists T, prefix_of (run_http cfg p sc) T /\ early (emitted p sc) T /\ (complete sc = true -> run_http cfg p sc = T).
 Proof. exact http_once_in_order. Qed.
 
+(* ---- a stream the client ends itself, however early (zero reads then close() / cancel() / leaving a `with` block
+   included): every log a successful init emitted heads the observation -- on a header-less socket stream it is the
+   close / cancel drain that delivers them *)
+Theorem C08_pipe_init_logs_delivered : forall sp sc,
+  legal (PStream sp) sc = true -> records sc = true -> no_exc_logs (PStream sp) = true -> pipe_reads (PStream sp) sc = true ->
+  ires sp = InitOk -> prefix_of (map ELog (ilogs sp)) (run_pipe (PStream sp) sc).
+Proof. exact pipe_init_logs_delivered. Qed.
+
+Theorem C08_http_init_logs_delivered : forall cfg sp sc,
+  legal (PStream sp) sc = true -> records sc = true -> no_exc_logs (PStream sp) = true ->
+  ires sp = InitOk -> prefix_of (map ELog (ilogs sp)) (run_http cfg (PStream sp) sc).
+Proof. exact http_init_logs_delivered. Qed.
+
 (* what [early E T] gives the client: the same log messages in the same order (exactly once, level/text/extras intact),
    the same data items in the same order, and when a data item d is returned every log emitted before d has already
    been delivered (logs_of T1 extends logs_of E1, where E1 is what was emitted before d) *)
@@ -93,6 +106,8 @@ Proof. exact log_roundtrip. Qed.
 Print Assumptions C08_pipe_once_in_order_partial.
 Print Assumptions C08_pipe_none_lost_partial.
 Print Assumptions C08_http_once_in_order_partial.
+Print Assumptions C08_pipe_init_logs_delivered.
+Print Assumptions C08_http_init_logs_delivered.
 Print Assumptions C08_early_meaning.
 Print Assumptions C08_robust.
 Print Assumptions C08_never_crashes.
@@ -133,3 +148,11 @@ Example C08_nonvacuous_roundtrip :
   let m := c8_log INFO "t" [("level", "x"); ("message", "y"); ("self", "z")] in
   lvl m <> EXC /\ uniq (map fst (extra m)) = true.
 Proof. split; [discriminate|vm_compute; reflexivity]. Qed.
+
+(* zero reads, then close / cancel, header-less and headered, producer and exchange: the premises hold and the init log is all the socket client sees *)
+Example C08_nonvacuous_zero_reads :
+  forallb (fun sc => legal c8_prod sc && records sc && no_exc_logs c8_prod && pipe_reads c8_prod sc
+                     && trace_eqb (logs_of (run_pipe c8_prod sc)) [ELog (c8_log INFO "init" [("level", "x")])])
+          [SIter false 0 AClose CbRecord; SIter false 0 ACancel CbRecord; SIter true 0 AClose CbRecord;
+           SExch false 0 AClose CbRecord; SExch false 0 ACancel CbRecord; SExch true 0 ACancel CbRecord] = true.
+Proof. vm_compute. reflexivity. Qed.
